@@ -62,7 +62,7 @@ Definition tt_write (t : table) (hash bound : N) (ply depth : Z) (sc : score) (m
 
 (** Used() as a fraction numerator/denominator *)
 Definition tt_used (t : table) : N * N := (used t, nslots t).
-Definition occupied (t : table) : N := N.of_nat (length (filter (fun s => match s with Some _ => true | None => false end) (slots t))).
+Definition tt_occupied (t : table) : N := N.of_nat (length (filter (fun s => match s with Some _ => true | None => false end) (slots t))).
 
 (** WriteLimited with the minimum-depth filter of NewMinDepthTranspositionTable *)
 Definition tt_write_mindepth (min : Z) (t : table) (hash bound : N) (ply depth : Z) (sc : score) (m : move) : table :=
